@@ -207,6 +207,12 @@ func (h *Host) Boom()                   { panic("Host.Boom") }
 func (s *Sub) GetN(k int32) int32       { s.rec.add("GetN", k); return k }
 
 // value-receiver methods: in the method set of the struct AND of the pointer to it (at different indexes)
+// PushSL grows the slice field the rule may be ranging over (a worklist): forRange visits the indexes present when it started
+func (h *Host) PushSL(x int32) { h.rec.add("PushSL", x); h.SL = append(h.SL, x) }
+
+// Slot hands out a pointer INTO the host (to h.I64): a local bound to it and then re-assigned must be rebound, never written through
+func (h *Host) Slot() *int64 { h.rec.add("Slot"); return &h.I64 }
+
 func (h Host) Echo(x int64) int64 { h.rec.add("Echo", x); return x }
 func (s Sub) EchoN(k int32) int32 { s.rec.add("EchoN", k); return k }
 
